@@ -106,6 +106,7 @@ func Run(k *report.Check) {
 	k.Rule = "configurations: every key-group count g in the stated set x operator counts n (quick: all g<=256 x all n<=g+3; thorough: all g<=2048 x 16 characteristic n, plus 160 large g up to 65535): ranges contiguous, disjoint, cover [0,g), sizes differ by at most one, RangeIndex of every group = the range containing it, and the real OperatorPartition owns exactly the groups of its range. Keys: every byte string of length <=2 and every string of length 3..9 over {00,'k',ff} (every murmur tail length and block count): KeyGroup = reference MurmurHash3-32(seed 0) mod g (reference anchored by published vectors), and the two-byte prefix that the real KeyedStateStore and TimerStore persist in a real dkv.DB equals it. Router: the source runner's real operatorCluster.routeEvent with one key per key group for g in {1..40,255,256,257,1000} x n<=min(g+2,9) delivers to the operator whose range contains the group. non-trivial = distinct (g,n) with n not dividing g or n>g, and distinct keys of length >=3"
 	k.Assumptions = []string{"'every key byte string' and 'every g up to 65535 with every n' are not enumerable; the stated sets are the claim", "in-situ routing (which operator's handler receives a key) is asserted by C04's oracle with the same reference function"}
 	k.Budget(100, 900)
+	k.Parts(5)
 	k.Explore("murmur-vectors", mc.Config{Workers: 1}, nil, vectorsBody)
 	var gs []int
 	if k.Thorough() {
